@@ -318,6 +318,12 @@ func SubstFree(t *Term, fv map[string]*Term, snap map[string]*Term, fromFn strin
 			return b
 		}
 		return t
+	case "param":
+		// a deferred call of a named function: its parameters are bound to the arguments evaluated at the defer
+		if b, ok := fv["p:"+t.Aux]; ok && b != nil {
+			return b
+		}
+		return t
 	case "const", "global", "fn":
 		return t
 	case "load":
